@@ -86,8 +86,7 @@ def angle_input(name, lo="0"):
                     z3.Implies(s == 0, z3.Or(v == 0, v == P)),
                     ]
     elif lo == "free":
-        # no range, hence no quadrant facts; but the value 0 is the angle 0
-        CTX.pre += [z3.Implies(v == 0, z3.And(c == 1, s == 0))]
+        pass        # no range, hence no quadrant facts (angles that stand for times get the zero-angle fact, see `timeof`)
     else:
         raise ValueError(lo)
     return a
@@ -127,6 +126,9 @@ class Case:
                 th = v[opts["angle"]]
                 rate = v[opts["rate"]]
                 v[name] = th / rate
+                # code under test decides on the *value* of times (t == 0, t < tm): the time 0 is the angle 0
+                c_, s_ = CTX.atom(opts["angle"])
+                CTX.pre.append(z3.Implies(th.n == 0, z3.And(c_.n == 1, s_.n == 0)))
             else:
                 raise ValueError(kind)
         return v
